@@ -1130,7 +1130,13 @@ func EvalExpression(exprSrc string, rootValue interface{}, stdout io.Writer) (*C
 	ev.root = rootCell
 	ev.ruleRoot = rootCell
 	cell, err := ev.evalExpr(expr)
-	if err != nil && err != errExit {
+	if err != nil {
+		switch err {
+		case errExit, errNext, errBreak, errContinue, errReturn:
+			// control flow statements make no sense in a standalone expression
+			msg := fmt.Sprintf("%s is not allowed here", err.Error())
+			return nil, ev.error(expr.Token(), msg)
+		}
 		return nil, err
 	}
 	return cell, nil
